@@ -30,13 +30,13 @@ def floatOfBits (n : Nat) : Float := Float.ofBits (UInt64.ofNat n)
 for other positions `-0.0` behaves as `0`, handled by `dyOfBitsZ`). -/
 def dyOfBits (n : Nat) : Option Dy :=
   let neg := n / 2 ^ 63 == 1
-  let e := (n / 2 ^ 52) % 2048
+  let e : Nat := (n / 2 ^ 52) % 2048
   let frac := n % 2 ^ 52
   if e == 2047 then none
   else if e == 0 && frac == 0 && neg then none
   else
     let m : Nat := if e == 0 then frac else frac + 2 ^ 52
-    let ex : Int := (if e == 0 then 1 else (e : Int)) - 1075
+    let ex : Int := Int.ofNat (if e == 0 then 1 else e) - 1075
     let sm : Int := if neg then -(m : Int) else (m : Int)
     if m == 0 then some ⟨0, 0⟩
     else if ex ≥ 0 then some ⟨sm * (2 : Int) ^ ex.toNat, 0⟩
@@ -330,10 +330,10 @@ def handle (inp out : Sexp) : CaseResult :=
       | .ok a, .ok b => a == b
       | .error a, .error b => a == b
       | _, _ => false)
-    let concOk := (match conc with
-      | .atom "some" => !req.isPartial || (q.mask == 0)
+    let concOk := match conc with
+      | .atom "some" => q.mask == 0
       | .atom "none" => q.mask != 0
-      | _ => false) && (match conc with | .atom "some" => q.mask == 0 | _ => q.mask != 0)
+      | _ => false
     let agreeMain := R.agrees tol mMain rMain
     let agreeFilled := R.agrees tol mFilled rFilled && R.agrees tol mFilled rDirect
     let agreeVariants :=
